@@ -194,6 +194,7 @@ type gateSnap struct {
 	b      []byte
 	labels [][2]string // (prefix, field): kept apart so that taking a snapshot does not allocate
 	offs   []int
+	table  []byte // listener targets: the encoded session table (addresses and session identities)
 }
 
 func (w *gateSnap) reset() { w.b, w.labels, w.offs = w.b[:0], w.labels[:0], w.offs[:0] }
@@ -441,6 +442,7 @@ func (t *gateTarget) snapshotInto(w *gateSnap) *gateSnap {
 			w.str(k)
 			w.u64(uint64(uintptr(unsafe.Pointer(ss[i])))) // identity of the session object
 		}
+		w.table = append(w.table[:0], w.b[w.offs[len(w.offs)-1]:]...)
 		w.field("listener.backlog")
 		w.i(len(t.lst.chAccepts))
 		for i, k := range keys {
@@ -1114,6 +1116,7 @@ func TestVerifC06(t *testing.T) {
 				logBudget = logged + perTarget
 				violated := false
 				nviol := 0
+				seenSig := map[string]int{}
 				var last *gateSnap
 				snapA, snapB := &gateSnap{b: make([]byte, 0, 1<<16)}, &gateSnap{b: make([]byte, 0, 1<<16)}
 				feedBuf := make([]byte, 0, 2048)
@@ -1166,22 +1169,23 @@ func TestVerifC06(t *testing.T) {
 					if !bytes.Equal(before.b, after.b) {
 						diff := gateDiff(before, after)
 						replay["changed"] = diff
-						created := false
-						for _, d := range diff {
-							if d == "listener.table" || len(d) >= 5 && d[:5] == "shape" {
-								created = true
-							}
-						}
-						if created && tg.lst != nil {
-							rep.violate("gate-session-created", fmt.Sprintf("%s: a datagram failing the integrity check (%s) changed the listener's session table", cfgName, cs.kind), replay)
-						}
-						rep.violate("gate-state-changed:"+tg.path+":"+c.name, fmt.Sprintf("%s: a datagram failing the integrity check (%s, %s) changed %v", cfgName, cs.kind, cs.detail, diff), replay)
+						createdNow := tg.lst != nil && !bytes.Equal(before.table, after.table)
+						sig := fmt.Sprintf("%v/%v/%s", diff, createdNow, cs.kind)
 						violated = true
-						nviol++
-						if nviol >= 4 {
-							break // enough replayable inputs for this target; later comparisons would be noise
+						// at most 2 reports per distinct effect and 16 per target: enough replayable
+						// inputs of every kind without drowning in repetitions
+						if seenSig[sig] < 2 {
+							seenSig[sig]++
+							nviol++
+							if createdNow {
+								rep.violate("gate-session-created", fmt.Sprintf("%s: a datagram failing the integrity check (%s, %s) changed the listener's session table", cfgName, cs.kind, cs.detail), replay)
+							}
+							rep.violate("gate-state-changed:"+tg.path+":"+c.name, fmt.Sprintf("%s: a datagram failing the integrity check (%s, %s) changed %v", cfgName, cs.kind, cs.detail, diff), replay)
+							if nviol >= 16 {
+								break
+							}
+							gateQuiesce(tg) // let whatever was triggered settle before the next comparison
 						}
-						gateQuiesce(tg) // let whatever was triggered settle before the next comparison
 					}
 					// correspondence log: a uniform sample of the fed datagrams, plus every
 					// datagram around the header-size boundary
